@@ -124,8 +124,10 @@ class EvalContext(metaclass=NamespaceableMeta):
     def get_node(self, *path, **kwargs):
         path = NodePath.get_list_path(*path)
         if str(path) in self._eval_cache:
-            if self._require_all_safe and ('path', str(path)) in self._tainted:
-                raise errors.UnsafeError(f'Note: the current context requires all evaluated nodes to be safe but the value cached for {str(path)!r} was computed from at least one !unsafe node', self.cfg.ayns.get_node(path, incomplete=None), str(path))
+            if ('path', str(path)) in self._tainted:
+                if self._require_all_safe:
+                    raise errors.UnsafeError(f'Note: the current context requires all evaluated nodes to be safe but the value cached for {str(path)!r} was computed from at least one !unsafe node', self.cfg.ayns.get_node(path, incomplete=None), str(path))
+                self._unsafe_seen += 1
             return self._eval_cache[str(path)]
         return self.cfg.ayns.get_node(path, **kwargs)
 
@@ -145,8 +147,10 @@ class EvalContext(metaclass=NamespaceableMeta):
             self._unsafe_seen += 1
 
         if id(cfgobj) in self._eval_cache_id:
-            if self._require_all_safe and ('id', id(cfgobj)) in self._tainted:
-                raise errors.UnsafeError(f'Note: the current context requires all evaluated nodes to be safe but the cached value of this node was computed from at least one !unsafe node', cfgobj, str(prefix))
+            if ('id', id(cfgobj)) in self._tainted:
+                if self._require_all_safe:
+                    raise errors.UnsafeError(f'Note: the current context requires all evaluated nodes to be safe but the cached value of this node was computed from at least one !unsafe node', cfgobj, str(prefix))
+                self._unsafe_seen += 1
             return self._eval_cache_id[id(cfgobj)]
 
         unsafe_seen = self._unsafe_seen
